@@ -351,10 +351,10 @@ func toLowerCaseKeyMap(m map[string]any, info *fieldInfo) map[string]any {
 			res[lk] = toLowerCaseInterface(v, ti)
 		} else if info.mapField != nil {
 			res[k] = toLowerCaseInterface(v, info.mapField)
-		} else if vv, ok := v.(map[string]any); ok {
-			res[k] = toLowerCaseKeyMap(vv, info)
 		} else {
-			res[k] = v
+			// not a known field: the value can be a map or a slice nested in a map,
+			// keep looking for the fields in it.
+			res[k] = toLowerCaseInterface(v, info)
 		}
 	}
 
